@@ -108,7 +108,11 @@ fn run<T: Scalar>(spec: &Spec, xs: &[f64], ys: &[f64], rng: &mut Rng, out: &mut 
     }
     // --- clone independence -----------------------------------------------------------------
     if !spec.contains_add() {
-        let at = rng.usize(0, len.saturating_sub(1));
+        // a third of the clones is taken while the view is still warming up (or fresh)
+        let at = if rng.chance(1, 3) { rng.usize(0, spec_n(spec).min(len.saturating_sub(1))) } else { rng.usize(0, len.saturating_sub(1)) };
+        if at <= spec_n(spec) {
+            out.count("clones_taken_during_warm_up", 1);
+        }
         let mut orig = build_plain::<T>(spec);
         for x in &xs[..at] {
             orig.update(T::of(*x));
